@@ -114,6 +114,7 @@ def check(repo: Repo) -> Result:
     res.check(not extra, "effective:no-undocumented-words", LUT, "the effective prefix table has no word form outside the SI list", found=extra, rid=r3)
 
     namespaces(repo, res)
+    filing(repo, res)
 
     r5 = res.rule("C14-R5", "prefixable flag of every row equals the documented one; no documented unit is missing", floor=140)
     for sym, (dim, scale, off, tol, pref, src) in SPEC.UNITS.items():
@@ -236,6 +237,135 @@ def namespaces(repo, res):
     res.check(ok, "add_symbols", fn.where(), "add_symbols rebuilds every exported unit name in the given registry and adds the registry's own symbols", rid=r4)
 
 
+def filing(repo, res):
+    """C14-R6: generate_name_alternatives keeps two maps: names[canonical] -> spellings (unit_symbols turns every
+    spelling into the attribute Unit(canonical)) and inv_names[spelling] -> canonical (the parser's alias map).  Both
+    are written by one nested primitive (list.append(spelling); inv[spelling] = canonical).  For every call of that
+    primitive - directly or through other nested helpers, whose parameters are substituted - the list written must be
+    names[K] with K the very canonical key handed to inv_names (up to a local that is the key's canonical re-spelling,
+    e.g. used_prefix for the micro signs): otherwise the attribute and the string of one name are different units."""
+    r6 = res.rule("C14-R6", "every generated spelling is filed under the unit its string form resolves to (attribute = string)", floor=6)
+    mod = repo.mod(LUT)
+    fn = mod.func("generate_name_alternatives")
+    res.fn(fn)
+    rets = [n for n in fn.body if isinstance(n, ast.Return)]
+    if len(rets) != 1 or not isinstance(rets[0].value, ast.Tuple) or len(rets[0].value.elts) != 2:
+        raise AnalysisError(f"{fn.where()}: generate_name_alternatives does not return (names, inv_names)")
+    names_v, inv_v = [norm(e) for e in rets[0].value.elts]
+    nested = {n.name: n for n in fn.body if isinstance(n, ast.FunctionDef)}
+    # the filing primitive: appends its name parameter to its list parameter and stores inv[name] = canonical
+    prim = None
+    for name, nd in nested.items():
+        ps = [a.arg for a in nd.args.args]
+        app = [c for c in ast.walk(nd) if isinstance(c, ast.Call) and isinstance(c.func, ast.Attribute) and c.func.attr == "append" and isinstance(c.func.value, ast.Name) and c.func.value.id in ps and len(c.args) == 1 and isinstance(c.args[0], ast.Name) and c.args[0].id in ps]
+        sto = [a for a in ast.walk(nd) if isinstance(a, ast.Assign) and isinstance(a.targets[0], ast.Subscript) and norm(a.targets[0].value) == inv_v and isinstance(a.targets[0].slice, ast.Name) and isinstance(a.value, ast.Name) and a.value.id in ps]
+        if len(app) == 1 and len(sto) == 1 and app[0].args[0].id == sto[0].targets[0].slice.id:
+            prim = (name, ps.index(app[0].func.value.id), ps.index(sto[0].value.id), ps.index(app[0].args[0].id))
+            # both writes happen together (same branch)
+            from engine.flow import enum_paths
+
+            for p in enum_paths(nd.body):
+                a_ = any(ev[0] == "stmt" and any(x is app[0] for x in ast.walk(ev[1])) for ev in p)
+                s_ = any(ev[0] == "stmt" and ev[1] is sto[0] for ev in p)
+                res.check(a_ == s_, f"primitive:{name}:paired", f"{LUT}:{nd.lineno}", "a spelling is added to the list of a unit exactly when it is entered in the alias map", rid=r6)
+    if prim is None:
+        raise AnalysisError(f"{fn.where()}: the nested routine that files a spelling (list.append + {inv_v}[...] = ...) was not found")
+    pname, i_list, i_canon, i_name = prim
+    # other writers of the two maps would bypass the primitive
+    stray = []
+    for n in ast.walk(fn.node):
+        if isinstance(n, ast.Assign) and isinstance(n.targets[0], ast.Subscript) and norm(n.targets[0].value) in (inv_v, names_v):
+            inside_prim = any(n is x for x in ast.walk(nested[pname]))
+            if not inside_prim:
+                stray.append(norm(n)[:70])
+    res.check(not stray, "single-writer", fn.where(), "the two name maps are written only through the filing routine", found=stray, rid=r6)
+
+    # canonical re-spellings: a local whose every definition is another local (its source), a literal, or a call of a
+    # module-level helper on the source that returns either its argument or a literal
+    def respelling_of(name, scope):
+        defs = [a.value for a in ast.walk(scope) if isinstance(a, ast.Assign) and len(a.targets) == 1 and norm(a.targets[0]) == name]
+        srcs = set()
+        flat = []
+        while defs:
+            d = defs.pop()
+            if isinstance(d, ast.IfExp):
+                defs += [d.body, d.orelse]
+            else:
+                flat.append(d)
+        defs = flat
+        for d in defs:
+            if isinstance(d, ast.Name):
+                srcs.add(d.id)
+            elif isinstance(d, ast.Constant):
+                continue
+            elif isinstance(d, ast.Call) and isinstance(d.func, ast.Name) and len(d.args) == 1 and isinstance(d.args[0], ast.Name) and not d.keywords and mod.has_func(d.func.id):
+                g = mod.func(d.func.id)
+                rets_ = [r.value for r in walk_no_nested(g.node) if isinstance(r, ast.Return)]
+                if rets_ and all(isinstance(r, ast.Constant) or (isinstance(r, ast.Name) and r.id == g.params[0]) for r in rets_):
+                    srcs.add(d.args[0].id)
+                else:
+                    raise AnalysisError(f"{LUT}:{d.lineno}: {name} is computed by {d.func.id}(), which is not a plain re-spelling (returns its argument or a literal)")
+            elif isinstance(d, (ast.Call, ast.Subscript)):
+                raise AnalysisError(f"{LUT}:{d.lineno}: definition of {name} is not understood: {norm(d)[:60]}")
+            else:
+                return None
+        if defs and len(srcs) == 1:
+            return next(iter(srcs))
+        return None
+
+    class Sub(ast.NodeTransformer):
+        def __init__(self, m):
+            self.m = m
+
+        def visit_Name(self, n):
+            return self.m.get(n.id, n) if isinstance(n.ctx, ast.Load) else n
+
+    import copy
+
+    sites = []
+
+    def collect(scope_body, env, depth, origin):
+        for st in scope_body:
+            if isinstance(st, ast.FunctionDef):
+                continue
+            for c in [x for x in ast.walk(st) if isinstance(x, ast.Call) and isinstance(x.func, ast.Name)]:
+                if any(c is y for nd in nested.values() for y in ast.walk(nd)) and depth == 0:
+                    continue
+                if c.func.id == pname:
+                    args = [Sub(env).visit(copy.deepcopy(a)) for a in c.args]
+                    if len(args) != 3 or c.keywords:
+                        raise AnalysisError(f"{LUT}:{c.lineno}: call of {pname} with an unexpected argument list")
+                    sites.append((origin or c, args))
+                elif c.func.id in nested and c.func.id != pname:
+                    if depth >= 3:
+                        raise AnalysisError(f"{LUT}:{c.lineno}: nested helpers too deep")
+                    nd = nested[c.func.id]
+                    ps = [a.arg for a in nd.args.args]
+                    if len(ps) != len(c.args) or c.keywords:
+                        raise AnalysisError(f"{LUT}:{c.lineno}: call of helper {c.func.id} cannot be bound")
+                    env2 = {p_: Sub(env).visit(copy.deepcopy(a)) for p_, a in zip(ps, c.args)}
+                    collect(nd.body, env2, depth + 1, origin or c)
+
+    collect(fn.body, {}, 0, None)
+    if len(sites) < 6:
+        raise AnalysisError(f"{fn.where()}: only {len(sites)} filing sites found")
+    for site, args in sites:
+        lst, canon = args[i_list], args[i_canon]
+        ok = isinstance(lst, ast.Subscript) and norm(lst.value) == names_v
+        found = f"{norm(lst)} <- canonical {norm(canon)}"
+        if ok:
+            k = norm(lst.slice)
+            c_ = norm(canon)
+            if k != c_:
+                # allowed: the canonical key is the list key with a local replaced by its canonical re-spelling
+                ok = False
+                for nm in {x.id for x in ast.walk(canon) if isinstance(x, ast.Name)}:
+                    src = respelling_of(nm, fn.node)
+                    if src is not None and norm(Sub({nm: ast.Name(id=src, ctx=ast.Load())}).visit(copy.deepcopy(canon))) == k:
+                        ok = True
+        res.check(ok, f"site:{site.lineno}:{norm(args[i_name])[:30]}", f"{LUT}:{site.lineno}", f"spelling {norm(args[i_name])} is listed under {norm(lst)[:40]} but its string form resolves to {norm(canon)}: unit_symbols exports the attribute as the former, the parser reads the string as the latter", "names[K] with K the canonical key given to the alias map", found, rid=r6)
+
+
 MUTANTS = [
     Mutant("inch-prefixable", LUT, None, '("inch", (m_per_inch, dimensions.length, 0.0, r"\\rm{in}", False))', '("inch", (m_per_inch, dimensions.length, 0.0, r"\\rm{in}", True))', ("C14-R1", "C14-R5")),
     Mutant("tonne-prefixable", LUT, None, '("t", (1.0e3, dimensions.mass, 0.0, r"\\rm{t}", False))', '("t", (1.0e3, dimensions.mass, 0.0, r"\\rm{t}", True))', ("C14-R1",)),
@@ -248,4 +378,6 @@ MUTANTS = [
     Mutant("symbols-wrong-registry", "unyt/unit_symbols.py", None, "_Unit(_canonical_name, registry=_registry)", "_Unit(_alt_name)", ("C14-R4",)),
     Mutant("unit-removed", LUT, None, '        ("smoot", (1.7018, dimensions.length, 0.0, r"\\rm{smoot}", False)),\n', "", ("C14-R5",)),
     Mutant("cal-not-prefixable", LUT, None, '("cal", (4.184, dimensions.energy, 0.0, r"\\rm{cal}", True))', '("cal", (4.184, dimensions.energy, 0.0, r"\\rm{cal}", False))', ("C14-R5",)),
+    Mutant("title-case-filed-under-bare-unit", LUT, "generate_name_alternatives", "                            append_name(names[up + key], up + key, alt.title())", "                            append_name(names[key], up + key, alt.title())", ("C14-R6",)),
+    Mutant("alias-map-written-directly", LUT, "generate_name_alternatives", "                append_name(names[key], key, alt)\n", "                append_name(names[key], key, alt)\n                inv_names[alt.upper()] = key\n", ("C14-R6",)),
 ]
